@@ -569,6 +569,22 @@ let handle (fields : string list) : string * string =
         else if String.length impl >= 5 && String.sub impl 0 5 = "race:" then "fail:" ^ impl
         else "fail:" ^ impl)
   | "crash" :: what :: _impl :: [] -> ("still-serving", "fail:process-aborted-" ^ what)
+  | "lifecycle" :: _transport :: point :: _cause :: impl :: [] ->
+    (* the theorem: whatever was held, everything is released after the packet loop returned *)
+    let with_backend = List.mem point ["channel"; "data-c2h"; "data-h2c"; "data-both"] in
+    let m = Printf.sprintf "backend=%s client=closed registry=ok gauges=ok goroutines=ok" (if with_backend then "released" else "none") in
+    (m, if m = impl then "ok"
+        else begin
+          let has k = List.mem k (split_on ' ' impl) in
+          let what = (if has "backend=open" then ["backend-connection-not-closed"] else [])
+                     @ (if has "client=open" then ["client-connection-not-closed"] else [])
+                     @ (if has "registry=leak" then ["registry-entry-left"] else [])
+                     @ (if has "gauges=leak" then ["gauge-not-restored"] else [])
+                     @ (if has "goroutines=leak" then ["goroutine-left"] else []) in
+          if _cause = "close-out-only" && not (List.mem point ["data-h2c"; "data-both"]) && what <> []
+          then "fail:legacy-out-closed-silent-host"
+          else "fail:" ^ (match what with [] -> "lifecycle-differs" | _ -> String.concat "+" what) ^ "@" ^ _transport ^ "/" ^ _cause
+        end)
   | k :: _ -> failwith ("unknown kind " ^ k)
   | [] -> failwith "empty line"
 
